@@ -4,6 +4,9 @@ Part A  synthetic item lists -> the real filter / sort / generateSummary functio
         "report_keys", "unified") vs the Coq model and spec (Report/ReportRun.v) vs a direct recomputation.
 Part B  generated projects x filter/threshold settings -> `pyscn analyze --json`; every summary number of the
         report recomputed from the items of the same report (c16report.check_report).
+Part B2 risk-lattice projects (c16report.make_lattice_project) x default / configured thresholds -> the CLI; every item's risk level
+        against the classification of its own reported metric by the thresholds echoed in the same report (items ON, next to and two
+        away from each threshold; CBO classes in every self-reference form), summaries' risk counts recounted from the metrics.
 Part C  formats (a differential TEST, the encoders are not modelled): the same AnalyzeResponse rendered by every
         formatter in-process (op "formats"), and the CLI run once per format.
 """
@@ -850,6 +853,76 @@ def part_e2e(ck, rng, labels, thorough, stats):
         set_toml(d, None)
 
 
+def lattice_settings(rng, thorough):
+    """(name, thresholds in effect, .pyscn.toml): the defaults, a fixed configured set, configured sets drawn from the seed."""
+    def pair(lo_max, span):
+        lo = rng.randint(1, lo_max)
+        return (lo, lo + rng.randint(1, span))
+
+    def toml(t):
+        return ("[complexity]\nlow_threshold = %d\nmedium_threshold = %d\n\n[cbo]\nlow_threshold = %d\nmedium_threshold = %d\nshow_zeros = true\n\n"
+                "[lcom]\nlow_threshold = %d\nmedium_threshold = %d\n" % (t["complexity"] + t["cbo"] + t["lcom"]))
+    out = [("default", dict(DEFAULT_THR), None)]
+    fixed = {"complexity": (4, 8), "cbo": (1, 3), "lcom": (1, 3)}
+    out.append(("configured", fixed, toml(fixed)))
+    for i in range(6 if thorough else 1):
+        t = {"complexity": pair(8, 6), "cbo": pair(5, 4), "lcom": pair(4, 3)}
+        out.append(("configured-seeded-%d" % i, t, toml(t)))
+    return out
+
+
+def part_lattice(ck, rng, labels, thorough, stats):
+    """Risk levels on the threshold lattice through the CLI: for every per-item section (complexity functions, CBO classes,
+    LCOM classes) items exactly ON each threshold in effect, one and two above / below; CBO classes in every self-reference
+    form (none, self-instantiation, own name as parameter / return / attribute annotation, inside a generic or a union,
+    inheriting + self-instantiating) with collaborators named in rotating ways; default and configured thresholds.
+    Decided by check_report: item risk = classification of the item's own reported metric by the thresholds echoed in the
+    same report, and the summaries' risk counts = the recount of the items' metrics."""
+    for si, (sname, thr, toml) in enumerate(lattice_settings(rng, thorough)):
+        d = lib.fresh_dir("c16_lat%d" % si)
+        desc = R.make_lattice_project(d, rng, thr)
+        set_toml(d, toml)
+        src = {n: open(os.path.join(d, n)).read() for n in desc["files"]}
+        desc_json = dict(desc, classes={"%s:%s" % k: list(v) for k, v in desc["classes"].items()})
+        for flags in (["--select", "complexity,cbo,lcom", "--min-complexity", "1"], ["--select", "cbo"], ["--min-complexity", "1"]):
+            if len(flags) == 2 and flags[0] != "--select" and si > 0 and not thorough:
+                continue
+            rc, data, err = lib.analyze_json(d, flags)
+            stats["cli_runs"] += 1
+            where = "risk lattice project, thresholds %s (%s) %s" % (sname, thr, flags)
+            replay = {"kind": "risk-lattice", "project": desc_json, "flags": flags, "toml": toml, "sources": src}
+            if data is None:
+                report(ck, "no JSON report written for %s (exit %s): %s" % (where, rc, err[-300:]), replay)
+                continue
+            stats["reports"] += 1
+            P = R.check_report(data, labels)
+            stats["numbers_recomputed"] += P.checked
+            for tags, msg in P.items:
+                report(ck, "%s — %s" % (msg, where), dict(replay, tags=tags), tags)
+            # the thresholds the report echoes are the ones in effect, and the lattice around them was reached
+            echo = {"complexity": ((data.get("complexity") or {}).get("Config") or {}, "low_threshold", "medium_threshold"),
+                    "cbo": ((data.get("cbo") or {}).get("Config") or {}, "lowThreshold", "mediumThreshold"),
+                    "lcom": ((data.get("lcom") or {}).get("Config") or {}, "lowThreshold", "mediumThreshold")}
+            selected = tuple(flags[1].split(",")) if flags[0] == "--select" else ("complexity", "cbo", "lcom")
+            for sec in selected:
+                cfg, lk, mk = echo[sec]
+                if (cfg.get(lk), cfg.get(mk)) != tuple(thr[sec]):
+                    report(ck, "%s: the report echoes thresholds %s/%s, in effect are %s — %s" % (sec, cfg.get(lk), cfg.get(mk), thr[sec], where),
+                           dict(replay, tags={"part": "lattice", "section": sec, "field": "echoed-thresholds"}),
+                           {"part": "lattice", "section": sec, "field": "echoed-thresholds", "setting": sname.split("-")[0]})
+            holes, reached = R.lattice_coverage(data, desc)
+            holes = [h for h in holes if h.split(":")[0].split("/")[0] in selected]
+            if holes:
+                ck.broken_ties.append("risk lattice not reached (%s): %s" % (where, "; ".join(holes[:4])))
+            for k, v in reached.items():
+                if k.split("/")[0] in selected:
+                    stats["lattice_items"][k] = stats["lattice_items"].get(k, 0) + v
+            if si == 0 and len(flags) == 4:
+                check_same_response(ck, data, where, stats, sections=False)
+        set_toml(d, None)
+    return si + 1
+
+
 def main(tier):
     ck = lib.Check("C16", tier)
     ck.prepare("C16.v")
@@ -857,7 +930,7 @@ def main(tier):
     thorough = tier == "thorough"
     labels = R.parse_labels()
     stats = {"evals": 0, "mismatch": 0, "cli_runs": 0, "reports": 0, "numbers_recomputed": 0, "format_renders": 0, "no_report": 0, "runs_differing": 0,
-             "sections_nonempty": set(), "yaml_reader": "-"}
+             "sections_nonempty": set(), "yaml_reader": "-", "lattice_items": {}}
     model_ok = not any(("Report/" in f or "Gen/" in f or "Score/" in f) for f in getattr(ck, "failed_files", []))
     if not all(labels.values()):
         ck.broken_ties.append("bucket labels not found in Gen/ReportConst.v")
@@ -878,6 +951,10 @@ def main(tier):
             part_e2e(ck, rng, labels, thorough, stats)
         except Exception as e:
             ck.broken_ties.append("end-to-end part failed: %s" % str(e)[-800:])
+        try:
+            dist["risk_lattice_projects"] = part_lattice(ck, rng, labels, thorough, stats)
+        except Exception as e:
+            ck.broken_ties.append("risk lattice part failed: %s" % str(e)[-800:])
     stats["sections_nonempty"] = sorted(stats["sections_nonempty"])
     ck.cov.update({
         "evaluations": stats["evals"] + stats["cli_runs"] + stats["format_renders"],
@@ -886,11 +963,17 @@ def main(tier):
                 "ties; explicit and computed risk levels; ill-formed counts for the model tie only) through the real filter/sort/generateSummary functions; "
                 "generated projects (full lattice of complexities, CBO and LCOM values, mixed-severity dead code, duplicated functions, edge projects) x "
                 "flag/.pyscn.toml settings through the CLI, every summary number recomputed from the items of the same JSON report; "
+                "risk-lattice projects through the CLI (default thresholds, a fixed configured set, configured sets drawn from the seed): complexity functions, "
+                "CBO classes and LCOM classes with the metric exactly ON each threshold in effect and 1, 2 above / below, the CBO classes in every self-reference form "
+                "(%s) with collaborators named by instantiation / parameter, attribute, return annotation / base class / imported name in rotating order; "
+                "per item: risk level = classification of the item's own reported metric by the thresholds echoed in the same report; risk counts of the section and unified "
+                "summaries = recount of the items' metrics; echoed thresholds = thresholds in effect; lattice coverage measured from the report (a hole is reported); " % ", ".join(R.SELF_FORMS) +
                 "formats: the same response rendered by every formatter in-process (incl. variants with nil sections/lists/maps) and one CLI run per format",
         "input_distribution": dict(dist, risk_and_bucket_values=63 * 7 * 3, cli_runs=stats["cli_runs"], json_reports_checked=stats["reports"],
                                    numbers_recomputed_from_items=stats["numbers_recomputed"], format_renders=stats["format_renders"],
                                    runs_without_report=stats["no_report"], cli_run_pairs_with_different_results_skipped=stats["runs_differing"], sections_with_items=stats["sections_nonempty"],
-                                   yaml_reader_for_cli_files=stats["yaml_reader"]),
+                                   yaml_reader_for_cli_files=stats["yaml_reader"],
+                                   risk_lattice_items_on_or_next_to_an_echoed_threshold=stats["lattice_items"]),
         "model_mismatches": stats["mismatch"],
         "disagreements_checked": stats["mismatch"] + getattr(ck, "nviol", 0) + len(ck.known_hits),
         "level_note": "theorems cover the summary/filter/risk/projection logic (models tied by sampled correspondence); the format clauses "
